@@ -174,9 +174,11 @@ Definition refused (local : bytes) : bool :=
   || ((0 <? length local) && (length local <=? length VP_DOTS)
       && bytes_eqb local (firstn (length local) VP_DOTS)).
 
-Definition user_exists (db : cdb) (fs : name -> entry) (vb : option bytes) (domain local : bytes) : outcome :=
+(** user_exists() given the outcome [vg] of vget_dir(): an error code, "not in users/cdb", or what the path in
+    the record points to *)
+Definition user_exists_with (vg : Z + option domstate) (fs : name -> entry) (vb : option bytes) (local : bytes) : outcome :=
   if refused local then mkOut 0 None [] else
-  match vget_dir db domain with
+  match vg with
   | inl e => mkOut e None []
   | inr None => mkOut VP_RC_NOTLOCAL None []
   | inr (Some d) =>
@@ -189,6 +191,9 @@ Definition user_exists (db : cdb) (fs : name -> entry) (vb : option bytes) (doma
           else mkOut (- Z.of_N VP_EDONE) None []
       end
   end.
+
+Definition user_exists (db : cdb) (fs : name -> entry) (vb : option bytes) (domain local : bytes) : outcome :=
+  user_exists_with (vget_dir db domain) fs vb local.
 
 (** ** the concrete directory of the correspondence run
     [lay] lists the entries of the domain directory (first entry of a name wins); everything else is absent.
@@ -232,11 +237,35 @@ Inductive rcpt_reply :=
 
 Definition AT : N := 64%N.
 
+(** what addrparse() makes of the result of user_exists() for the (lower-cased) address [addr] *)
+Definition reply_of (addr : bytes) (o : outcome) : rcpt_reply :=
+  if Z.ltb (rc o) 0 then RError (- rc o)
+  else if Z.eqb (rc o) 0 then RNoUser (VP_NOUSER_PRE ++ addr ++ VP_NOUSER_POST)
+  else RAccept.
+
 Definition addrparse_rcpt (db : cdb) (fs : name -> entry) (vb : option bytes) (local domain : bytes)
     : rcpt_reply * outcome :=
   let l := map to_lower local in
   let d := map to_lower domain in
   let o := user_exists db fs vb d l in
-  ((if Z.ltb (rc o) 0 then RError (- rc o)
-    else if Z.eqb (rc o) 0 then RNoUser (VP_NOUSER_PRE ++ (l ++ AT :: d) ++ VP_NOUSER_POST)
-    else RAccept), o).
+  (reply_of (l ++ AT :: d) o, o).
+
+(** RCPT TO:<local@[iptext]> (addrsyntax() result 4, with fixes/C13-ipv6-literal.diff): the text between the
+    brackets, without an "IPv6:" tag (any case; the address has been lower-cased), is compared with the
+    connection's local address [localip]; when they are equal the mailbox is looked up in the domain
+    [liphost] (control/localiphost), otherwise the answer is "no such user". *)
+Definition LBR : N := 91%N.
+Definition RBR : N := 93%N.
+Definition literal_text (ip : bytes) : bytes :=
+  (if bytes_eqb (firstn (length VP_IPV6TAG) ip) (map to_lower VP_IPV6TAG) then skipn (length VP_IPV6TAG) ip else ip) ++ [RBR].
+Definition literal_is_local (localip ip : bytes) : bool :=
+  bytes_eqb (firstn (length localip) (literal_text ip)) localip && N.eqb (nth (length localip) (literal_text ip) 0%N) RBR.
+
+Definition addrparse_literal (localip liphost : bytes) (db : cdb) (fs : name -> entry) (vb : option bytes)
+    (local iptext : bytes) : rcpt_reply * outcome :=
+  let l := map to_lower local in
+  let ip := map to_lower iptext in
+  let addr := l ++ AT :: LBR :: ip ++ [RBR] in
+  if literal_is_local localip ip then
+    let o := user_exists db fs vb liphost l in (reply_of addr o, o)
+  else (RNoUser (VP_NOUSER_PRE ++ addr ++ VP_NOUSER_POST), mkOut 0 None []).
